@@ -40,6 +40,23 @@ var verifMapNames = []string{
 	"\x01a\x01b\x01c\x01d\x01e\x01f\x01g\x01h\x01i\x01j\x01k\x01l\x01?\x01z\x00",
 }
 
+//verif:harness H03_findmap property=C03 native=no quick=k=1;k=2 thorough=k=3
+
+// H03_findmap: the same run registered for C03, whose statement contains the name-to-map rule.
+func H03_findmap() { H02_findmap() }
+
+// verifWireName: "c.z" -> \x01c\x01z\x00
+func verifWireName(dom []byte) []byte {
+	var out []byte
+	for _, l := range bytes.Split(dom, []byte(".")) {
+		if len(l) > 0 {
+			out = append(out, byte(len(l)))
+			out = append(out, l...)
+		}
+	}
+	return append(out, 0)
+}
+
 func H02_findmap() {
 	k := nd.Param("k")
 	pool := verifMapPool()
@@ -72,6 +89,27 @@ func H02_findmap() {
 		nd.Assert(err == nil, "findmap-no-error")
 		ids[layout] = id
 	}
+	// C03's name-to-map rule, stated independently: the exact-name map, else the wildcard map of
+	// the nearest enclosing name (the name's own wildcard entry does not cover the name itself)
+	var want []byte
+	match := func(wire []byte, r dnsdata.VerifRec) bool {
+		w := verifWireName(r.Dom)
+		return bytes.Equal(w, wire)
+	}
+	for _, r := range recs {
+		if r.Kind == 'M' && !r.Wild && match(q, r) {
+			want = []byte{r.Lmap[0], r.Lmap[1]}
+		}
+	}
+	for rest := q; want == nil && rest[0] != 0; {
+		rest = rest[1+int(rest[0]):]
+		for _, r := range recs {
+			if r.Kind == 'M' && r.Wild && match(rest, r) {
+				want = []byte{r.Lmap[0], r.Lmap[1]}
+			}
+		}
+	}
+	nd.Assert(bytes.Equal(ids[0], want), "exact-name-map-else-nearest-enclosing-wildcard-map")
 	nd.Assert(bytes.Equal(ids[0], ids[1]), "cdb-and-rocksdb-v1-find-the-same-map")
 	nd.Assert(bytes.Equal(ids[0], ids[2]), "label-by-label-and-closest-key-find-the-same-map")
 }
